@@ -316,7 +316,7 @@ def expand(res, only=None):
             if isinstance(arg, str) and arg in ("same_interval", "other_interval"):
                 other = partner_curve(U, P, W, arg)
                 if name == "or" and arg == "same_interval":
-                    other = partner_curve([k for k in U], P, W, arg)
+                    other = partner_curve([k for k in U], P, W, arg)  # generic points: does not start where c ends
                     span = lib.to_frac(U[-1]) - lib.to_frac(U[0])
                     other.knotvector.shift(float(span) if isfloat(U) else span)
             if name in ("intersection",):
@@ -354,6 +354,26 @@ def expand(res, only=None):
             if not mutating:
                 if changed:
                     res.violation("operand_modified", f"{where}: a non-mutating operation changed the receiver", **tags)
+                # curves RETURNED by the operation must be independent objects: mutate them through a short history
+                # (weights, insertion, elevation, control points) and look at the operands again
+                returned = []
+                for x in (o[1] if isinstance(o[1], (tuple, list)) else [o[1]]):
+                    if isinstance(x, lib.Curve) and x is not c:
+                        returned.append(x)
+                if returned and name not in ("copy", "deepcopy"):
+                    for r in returned[:2]:
+                        try:
+                            r.weights = [2 + (i % 3) for i in range(r.npts)]
+                            kk = r.knotvector.knots
+                            r.knot_insert([kk[0] + (kk[1] - kk[0]) / 2])
+                            r.degree_increase(1)
+                            r.ctrlpoints = [pt * 3 for pt in r.ctrlpoints]
+                            r.knotvector.shift(1)
+                        except Exception:  # noqa: BLE001
+                            pass
+                    if key(state_of(c, d, state[2])) != before or (other is not None and lib.snap_curve(other) != osnap):
+                        res.violation("result_aliased", f"{where}: mutating the returned curve changed an operand", **tags)
+                    res.outcome("result_independence_probed")
                 if name in ("copy", "deepcopy"):
                     r = o[1]
                     try:
